@@ -578,6 +578,9 @@ register(PropertySpec(
              "the construction self._type_(**…) runs exactly once per argument combination (counting domain over the "
              "CFG), and for an inferred variable the registry is never consulted instead (abstract interpretation with "
              "_is_inferred_ = True)"),
+        Rule("INFER-NOT-TRUTH", infer_rules.rule_infer_not_truth, 4,
+             "abstract interpretation of the output handler for a non-predicate variable: the row of a constructed instance is "
+             "produced whatever the instance's truthiness"),
         Rule("BIND-KEEP", _lazy("binding", "rule_bind_keep"), 12,
              "(shared with C02) the rows the rule head is built from keep everything the body bound"),
         Rule("DEDUP-KEY", _lazy("binding", "rule_dedup_key"), 3, "(shared with C02) duplicate-suppression keys"),
